@@ -12,6 +12,7 @@ TUS = {
     "t_arith": {"sources": ["t_arith.cpp"], "parts": INT_PARTS},
     "t_cmp": {"sources": ["t_cmp.cpp"], "parts": INT_PARTS + FLT_PARTS},
     "t_bit": {"sources": ["t_bit.cpp"], "parts": INT_PARTS},
+    "t_select": {"sources": ["t_select.cpp"], "parts": INT_PARTS + FLT_PARTS},
 }
 
 COMMON_ASSUMPTIONS = [
@@ -60,6 +61,19 @@ PROPS = {
                 "(one/two-bit patterns, low/high masks, neighbours, complements) for 64-bit; K in every lane against every fill. "
                 "non-trivial: input is 0, all-ones, has its top bit set, or the result is non-zero.",
         "explanation": "each <bit>-family function a type provides, on every value, against bit-loop models of the C++20 definitions",
+        "assumptions": [],
+    },
+    "C07": {
+        "tus": ["t_select"],
+        "configs": int_cfgs,
+        "rule": "8-bit: all pairs and all triples (clamp, blend/keep/clear/negate with the mask derived from the third operand); 16-bit: "
+                "D16xL16 u L16xD16 (all pairs thorough) and L16^3; 32/64-bit: L x L and K-based triples; floats: F32L^2, F64L^2, KF-based triples, "
+                "F64S/F32L unary; K tuples in every lane against every fill. non-trivial: a+b odd or out of range or an operand equal to MIN "
+                "(integers); zero / opposite-sign / infinite / equal operands (floats); for mask-driven operations: mask set or operands differ; "
+                "for clamp: x outside [lo, hi].",
+        "explanation": "selection and ordering operations on every tuple; masks are constructed from raw representation bytes by the harness; "
+                       "models in __int128 (average = trunc((a+b)/2), midpoint = a + trunc((b-a)/2)); float min/max/clamp compared by value on "
+                       "non-NaN operands, sign-bit operations and blend/keep/clear compared bit for bit",
         "assumptions": [],
     },
 }
